@@ -29,6 +29,35 @@ Definition is_cont (b : Z) : bool := (128 <=? b) && (b <? 192).
 Definition py_len (s : bytes) : Z := Z.of_nat (length (filter (fun b => negb (is_cont b)) s)).
 Definition no_cont (s : bytes) : bool := forallb (fun b => negb (is_cont b)) s.
 
+(** [bytes.decode()] (UTF-8, errors="strict") succeeds exactly on the well-formed UTF-8 of the Unicode standard (table 3-7):
+    no overlong forms (lead bytes C0, C1; E0 followed by 80..9F; F0 followed by 80..8F), no surrogates (ED followed by
+    A0..BF), nothing beyond U+10FFFF (F4 followed by 90..BF; lead bytes F5..FF), no truncated or stray continuation *)
+Fixpoint valid_utf8 (s : bytes) : bool :=
+  match s with
+  | [] => true
+  | b0 :: r0 =>
+    if (0 <=? b0) && (b0 <? 128) then valid_utf8 r0
+    else if (194 <=? b0) && (b0 <? 224) then
+      match r0 with
+      | b1 :: r1 => is_cont b1 && valid_utf8 r1
+      | _ => false
+      end
+    else if (224 <=? b0) && (b0 <? 240) then
+      match r0 with
+      | b1 :: b2 :: r2 =>
+          is_cont b1 && is_cont b2 && (if b0 =? 224 then 160 <=? b1 else if b0 =? 237 then b1 <? 160 else true) && valid_utf8 r2
+      | _ => false
+      end
+    else if (240 <=? b0) && (b0 <? 245) then
+      match r0 with
+      | b1 :: b2 :: b3 :: r3 =>
+          is_cont b1 && is_cont b2 && is_cont b3 && (if b0 =? 240 then 144 <=? b1 else if b0 =? 244 then b1 <? 144 else true)
+          && valid_utf8 r3
+      | _ => false
+      end
+    else false
+  end.
+
 (** struct.pack("I", n) on a little-endian machine; struct.error outside [0, 2^32) *)
 Definition le32 (n : Z) : bytes := [n mod 256; (n / 256) mod 256; (n / 256 / 256) mod 256; (n / 256 / 256 / 256) mod 256].
 Definition pack_u32 (n : Z) : option bytes := if (0 <=? n) && (n <? 4294967296) then Some (le32 n) else None.
@@ -105,10 +134,12 @@ Definition read_u32 (l : bytes) : option (Z * bytes) :=
   end.
 
 (** [_read_string]: a short [fp.read(strlen)] is not an error in Python; the model follows.  ([Z.min] only keeps
-    the unary count small when a corrupt prefix announces gigabytes: [firstn n r = firstn (min n |r|) r].) *)
+    the unary count small when a corrupt prefix announces gigabytes: [firstn n r = firstn (min n |r|) r].)
+    [.decode()] raises UnicodeDecodeError on bytes that are not well-formed UTF-8. *)
 Definition read_string (l : bytes) : option (bytes * bytes) :=
   match read_u32 l with
-  | Some (n, r) => let m := Z.to_nat (Z.min n (blen r)) in Some (firstn m r, skipn m r)
+  | Some (n, r) => let m := Z.to_nat (Z.min n (blen r)) in
+                   if valid_utf8 (firstn m r) then Some (firstn m r, skipn m r) else None
   | None => None
   end.
 
@@ -164,9 +195,19 @@ Definition parse_header (file : bytes) : option (header * Z) :=
   end.
 
 (** * edit_header *)
-(** [value[:oldlen] + " " * (oldlen - len(value))] (on characters in Python: faithful for ASCII names) *)
+(** [value[:oldlen] + " " * (oldlen - len(value))] ON CHARACTERS, as Python does it: [oldlen = len(header["source_name"])]
+    and [len(value)] count characters (bytes that are not continuation bytes), the slice keeps the first [oldlen]
+    characters with all their continuation bytes, the padding is [oldlen - len(value)] blanks (none when negative).
+    For names without multi-byte characters this is [firstn]/[length] on bytes (Proofs/C05_chars.v: [pad_name_ascii]). *)
+Definition nchars (s : bytes) : nat := length (filter (fun b => negb (is_cont b)) s).
+Fixpoint take_chars (n : nat) (s : bytes) : bytes :=
+  match s with
+  | [] => []
+  | b :: r => if is_cont b then b :: take_chars n r          (* belongs to the character taken last *)
+              else match n with O => [] | S m => b :: take_chars m r end
+  end.
 Definition pad_name (old new : bytes) : bytes :=
-  firstn (length old) new ++ repeat 32 (length old - length new).
+  take_chars (nchars old) new ++ repeat 32 (nchars old - nchars new).
 
 Definition edit_value (h : header) (k : bytes) (v : value) : option value :=
   if bytes_eqb k key_source_name then
@@ -232,7 +273,7 @@ Definition wf_value (t : hty) (v : value) : Prop :=
   | Tb, VInt n => -128 <= n <= 127
   | TI, VInt n => 0 <= n < 4294967296
   | Td, VDbl w => length w = 8%nat
-  | Tstr, VStr s => blen s < 4294967296
+  | Tstr, VStr s => blen s < 4294967296 /\ valid_utf8 s = true     (* a Python str: the UTF-8 of a code-point list *)
   | _, _ => False
   end.
 
@@ -241,6 +282,9 @@ Definition wf_entry (e : bytes * value) : Prop :=
 
 (** well-formed header: recognised keys, each at most once, values of the key's type *)
 Definition wf_header (h : header) : Prop := NoDup (map fst h) /\ Forall wf_entry h.
+
+(** string values that are the UTF-8 of some Python str *)
+Definition value_utf8 (v : value) : bool := match v with VStr s => valid_utf8 s | _ => true end.
 
 (** string values free of multi-byte characters *)
 Definition value_no_cont (v : value) : bool := match v with VStr s => no_cont s | _ => true end.
@@ -252,7 +296,7 @@ Definition wf_value_b (t : hty) (v : value) : bool :=
   | Tb, VInt n => (-128 <=? n) && (n <=? 127)
   | TI, VInt n => (0 <=? n) && (n <? 4294967296)
   | Td, VDbl w => (blen w =? 8)
-  | Tstr, VStr s => blen s <? 4294967296
+  | Tstr, VStr s => (blen s <? 4294967296) && valid_utf8 s
   | _, _ => false
   end.
 
